@@ -198,8 +198,21 @@ def apply_edits(mol_h, match, seq):
     return product_key(Chem.GetMolFrags(rw, asMols=True, sanitizeFrags=False))
 
 
+def species_key(frag):
+    """Canonical SMILES of a hydrogen-explicit fragment that also carries the
+    radical-electron count of every atom (with all hydrogens explicit the
+    plain SMILES text does not show it): radicals are written as isotope
+    labels 100+n on a copy before canonicalisation."""
+    m = Chem.Mol(frag)
+    for a in m.GetAtoms():
+        n = a.GetNumRadicalElectrons()
+        if n:
+            a.SetIsotope(100 + n)
+    return Chem.MolToSmiles(m)
+
+
 def product_key(frags):
-    return tuple(sorted(Chem.MolToSmiles(f) for f in frags))
+    return tuple(sorted(species_key(f) for f in frags))
 
 
 def element_counts(mols):
